@@ -458,6 +458,8 @@ func (x *Exec) call(caller *frame, callpos token.Pos, fn value, args []value) va
 		return x.callSSA(caller, callpos, fn.Fn, args, fn.Env)
 	case *ssa.Builtin:
 		return x.callBuiltin(caller, callpos, fn, args)
+	case nativeFn:
+		return fn(x, caller, args)
 	case poison:
 		if x.inInit {
 			return poison{"call of poison"}
